@@ -3,25 +3,27 @@
 (* Model-checking instances of RegSync (C18): the scenario spaces.  Each    *)
 (* space isolates one dimension of the quantifier so that it can be         *)
 (* enumerated exhaustively:                                                 *)
-(*   FilterScns      every allow list x deny list of up to two expressions     *)
+(*   FilterScns   every allow list x deny list of up to two expressions     *)
 (*                over all subsets of three tags (overlapping, empty,       *)
-(*                unset), two source populations                             *)
-(*   DecideScns   one tag: every source image x target image x platform x    *)
-(*                media type list x backup shape x switch combination x      *)
-(*                entry type, and every two-run history (mode, source move   *)
-(*                or delete, mode)                                           *)
-(*   RollScns        three runs while the tag moves A -> B -> A (and A->B->C)   *)
-(*                with every backup shape, constant backup names included    *)
-(*   ParScns         two and three entries, parallel 0..4: every interleaving   *)
-(*                of the entries' request sequences under the throttle       *)
-(*   RegScns         registry entries: repository filters x tag filters         *)
-(*   S14Scns         top level alternations over the five tag pool (ordered);   *)
-(*                with Anchoring = "asis" TLC finds the S14 counterexample   *)
-(*   BkForceScns     platform + forceRecursive on a target that holds the index: *)
-(*                with PlatMatch = "asis" TLC finds the C18-2 counterexample   *)
-(*   SharedBkScns    two entries with the same constant backup name: the race   *)
-(*                that makes "backup names of different entries are          *)
-(*                distinct" an assumption of the check (parallel >= 2)       *)
+(*                unset), two source populations                            *)
+(*   DecideQuick  one tag: source image x target image x platform x media   *)
+(*   DecideFull   type list x backup shape x switch combination x entry     *)
+(*                type, and one- and two-run histories (mode, source move   *)
+(*                or delete, mode); Quick is a sub-space of Full            *)
+(*   RollScns     four runs while a tag moves A -> B -> A (and A->B->C,     *)
+(*                A->B->X) with every backup shape, constant names included *)
+(*   ParScns      two and three entries, parallel 0..4: every interleaving  *)
+(*                of the entries' request sequences under the throttle      *)
+(*   RegScns      registry entries: repository filters x tag filters        *)
+(*   S14Scns      top level alternations of 2-3 of the five pool tags in    *)
+(*   S14Quick     every order, as allow and as deny list; with Anchoring =  *)
+(*                "asis" TLC finds the C18-1 (S14) counterexample           *)
+(*   BkForceScns  platform + switches on a target that holds the index;     *)
+(*                with PlatMatch = "asis" TLC finds the C18-2 counterexample*)
+(*   SharedBkScns two entries with the same constant backup name: the race  *)
+(*                that makes "backup names of different entries are         *)
+(*                distinct" an assumption of the check (parallel >= 2);     *)
+(*                SharedBkSeqScns: the same with parallel 0 / 1 is fine     *)
 (* Mirrors nothing in the code; it only enumerates inputs of RegSync.       *)
 (***************************************************************************)
 EXTENDS RegSync
@@ -74,10 +76,12 @@ DecideQuick(z) ==
               {<<Run("once")>>, <<Run("check")>>, <<Run("missing")>>, <<Run("once"), Move("r1", "v1", "B"), Run("once")>>,
                <<Run("once"), Move("r1", "v1", ""), Run("once")>>, <<Run("missing"), Move("r1", "v1", "X"), Run("once")>>})
 DecideFull(z) ==
-  DecideSpace({Img1("r1", "v1"), E0}, {"A", "B", "X", ""}, {"", "A", "B", "X", "Xa"},
-              {"", "amd64", "s390x"}, {<<>>, <<"ociman">>, <<"ociindex", "dockerman">>},
+  DecideSpace({Img1("r1", "v1"), E0}, {"A", "B", "X", ""}, {"", "A", "X", "Xa"},
+              {"", "amd64", "s390x"}, {<<>>, <<"ociindex", "dockerman">>},
               {"none", "tagtpl", "const", "fullref", "othreg"}, Switches,
-              {<<Run(a)>> : a \in Modes3} \cup Plans2(Modes3, {"A", "B", "X", ""}))
+              {<<Run(a)>> : a \in Modes3} \cup
+              {<<Run(m[1]), Move("r1", "v1", i), Run(m[2])>> :
+                 m \in {<<"once", "once">>, <<"missing", "once">>, <<"once", "check">>}, i \in {"A", "B", "X", ""}})
 
 \* ---------------------------------------------------------------- a tag moving forth and back
 RollScns(z) ==
